@@ -582,7 +582,12 @@ func (r *Request) reply(payload []byte) {
 	}
 	r.replied = true
 	r.s.tracef("<== %s: %s", r.msg.Subject, payload)
-	err := r.s.nc.Publish(r.msg.Reply, payload)
+	nc := r.s.conn()
+	if nc == nil {
+		r.s.errorf("Error sending reply %s: %s", r.msg.Subject, errNotStarted)
+		return
+	}
+	err := nc.Publish(r.msg.Reply, payload)
 	if err != nil {
 		r.s.errorf("Error sending reply %s: %s", r.msg.Subject, err)
 	}
